@@ -1155,6 +1155,30 @@ def r_guard(f):
                         err_t, ok_t = tm_.get(1, tt_["otherwise"]), tm_.get(0)
                         if ok_t is not None and err_t is not None and g_.diverges(err_t) and not g_.diverges(ok_t):
                             ok_edges.append(ok_t)
+            # `if v.try_reserve(n).is_err() { fallback }`: the `false` edge of is_err (the `true` edge of is_ok) is the Ok edge
+            for sb_, bl_ in enumerate(b.blocks):
+                tt_ = bl_["term"]
+                if tt_ and tt_["k"] == "switch" and not bl_["cleanup"]:
+                    e_ = strip(d.expr(tt_["discr"]))
+                    neg_ = False
+                    while e_[0] == "un" and e_[1] == "Not":
+                        neg_ = not neg_; e_ = strip(e_[2])
+                    if e_[0] == "call" and e_[2] in ("is_err", "is_ok") and any(isinstance(x, tuple) and x[0] == "call" and x[2] in ("try_reserve", "try_reserve_exact") for x in walk(e_)):
+                        tm_ = dict((int(a_), b2) for a_, b2 in tt_["targets"])
+                        t_true, t_false = (tt_["otherwise"] if 0 in tm_ else tm_.get(1)), tm_.get(0, tt_["otherwise"])
+                        ok_is_true = (e_[2] == "is_ok") != neg_
+                        ok_t = t_true if ok_is_true else t_false
+                        if ok_t is not None:
+                            ok_edges.append(ok_t)
+            # a crate helper whose own body goes through a panicking Vec::reserve* on every path counts as one
+            for bi, t_, fn_ in b.calls():
+                hb_ = f.crate_fn_for_call(fn_) if fn_ else None
+                if hb_ is not None and hb_.kind != "Closure" and hb_.id != b.id and hb_.blocks:
+                    hh = [x for x, t2, f2 in hb_.calls() if f2 and f2["name"] in ("reserve", "reserve_exact") and "alloc::vec::Vec" in (f2.get("path") or "")]
+                    hr = [rb for rb, bl in enumerate(hb_.blocks) if bl["term"] and bl["term"]["k"] == "return" and not bl["cleanup"] and rb in hb_.reachable(0)]
+                    hd_ = hb_.dominators()
+                    if hh and all(any(x == rb or x in hd_.get(rb, set()) for x in hh) for rb in hr):
+                        hard.append(bi)
             points = hard + ok_edges
             guaranteed = bool(points) and all(any(p_ == rb or p_ in domr.get(rb, set()) for p_ in points) or _all_paths_pass(b, points, rb) for rb in rets_)
             if soft or not hard:
